@@ -538,7 +538,14 @@ class Changelog(object):
                 self._parse_error('Empty changelog file.', strict)
                 return
 
-            file = file.splitlines()
+            # Only split at the ASCII line breaks: str.splitlines() also splits
+            # at form feeds and at the Unicode line and paragraph separators,
+            # which can legitimately occur inside a line of change text (and
+            # do not split lines when the input is a file or a list of lines).
+            lines = re.split(r'\r\n|\r|\n', file)
+            if lines[-1] == '':
+                lines.pop()
+            file = lines
         for line in file:
             if not isinstance(line, str):
                 line = line.decode(encoding)
